@@ -232,7 +232,9 @@ class Ctx:
         os.makedirs(d, exist_ok=True)
         h = hashlib.sha1(json.dumps(replay_obj, sort_keys=True, default=str).encode()).hexdigest()[:10]
         p = os.path.join(d, "%s_%s.json" % (self.tier, h))
-        replay_obj = dict(replay_obj, property=self.pid, message=msg, key=key)
+        replay_obj = dict(replay_obj, property=self.pid, message=msg, key=key, tier=self.tier)
+        if getattr(self, "replay_ctx", None) and "replay_ctx" not in replay_obj:
+            replay_obj["replay_ctx"] = self.replay_ctx    # what a later ./check replay needs to re-execute and re-judge
         with open(p, "w") as f:
             json.dump(replay_obj, f, indent=1, default=str)
         for kf in known_findings():
@@ -354,6 +356,7 @@ def seq_component(ctx, comp, specdir, impl, emit_cfg, trace_mod, trace_cfg, gocm
                   rand_n=200, rand_len=60, extra_mc=(), walk_args=(), rand_args=(), trace_every=1, key_prefix=None, env=None, emit_from=None):
     """E1 (model -> code walk over every TLC edge) + E2 (random traces validated by TLC) for one
     sequential stateful component. Returns stats dict."""
+    ctx.replay_ctx = {"gocmd": gocmd, "overlays": list(overlays), "specdir": specdir, "trace_mod": trace_mod, "trace_cfg": trace_cfg, "env": dict(env or {})}
     for (mod, cfg) in extra_mc:
         ctx.model_check(specdir, mod, cfg)
     if emit_from is None:
@@ -469,6 +472,9 @@ def generic_replay(ctx, rp):
         log("replay of component %s: re-run the check itself (%s)" % (comp, rp.get("note", "")))
         return 2
     cmd, overlays, specdir, tmod, tcfg = COMPONENTS[comp]
+    rc = rp.get("replay_ctx")
+    if rc:   # recorded by the run that found the violation: same driver, trace specification, configuration, environment
+        cmd, overlays, specdir, tmod, tcfg = rc["gocmd"], rc["overlays"], rc["specdir"], rc["trace_mod"], rc["trace_cfg"]
     ctx.copy_repo(overlays)
     binp = ctx.go_build(cmd)
     f = os.path.join(ctx.out, "replay.json")
@@ -481,6 +487,8 @@ def generic_replay(ctx, rp):
         renv["VERIF_FLAVOUR"] = "cmp" if comp.endswith("cmp") else "skip"
         renv["VERIF_FREE"] = "1"
         renv["VERIF_NK"] = "6"
+    if rc:
+        renv.update(rc.get("env", {}))
     r = ctx.run([binp, "replay", "-file", f, "-out", ctx.out], timeout=600, env=renv)
     log(r.stdout[-4000:])
     ok, line, n = ctx.validate_trace(specdir, tmod, tcfg, os.path.join(ctx.out, "replay_trace.ndjson"), tag="replay")
@@ -639,6 +647,8 @@ def conc_component(ctx, comp, specdir, mcmod, emit_cfg, gocmd, overlays, shim_fi
 
 def rand_only(ctx, comp, specdir, trace_mod, trace_cfg, gocmd, n, ln, env=None, overlays=None):
     """E2 alone: seeded random histories from the real code validated by TLC."""
+    ctx.replay_ctx = {"gocmd": gocmd, "overlays": list(overlays if overlays is not None else getattr(ctx, "overlays", []) or []),
+                      "specdir": specdir, "trace_mod": trace_mod, "trace_cfg": trace_cfg, "env": dict(env or {})}
     ctx.copy_repo(overlays if overlays is not None else getattr(ctx, "overlays", []))
     binp = os.path.join(ctx.bin, gocmd)
     if not os.path.exists(binp):
